@@ -430,26 +430,18 @@ namespace detail
 	{
 		GLM_STATIC_ASSERT(std::numeric_limits<genType>::is_iec559 || GLM_CONFIG_UNRESTRICTED_FLOAT, "'roundEven' only accept floating-point inputs");
 
-		int Integer = static_cast<int>(x);
-		genType IntegerPart = static_cast<genType>(Integer);
-		genType FractionalPart = fract(x);
+		// No conversion to int: it is undefined for |x| >= 2^31, infinities and NaN (for which fract(x) is never 0.5)
+		genType const FractionalPart = fract(x);
 
-		if(FractionalPart > static_cast<genType>(0.5) || FractionalPart < static_cast<genType>(0.5))
+		if(!(FractionalPart == static_cast<genType>(0.5)))
 		{
 			return round(x);
 		}
-		else if((Integer % 2) == 0)
-		{
-			return IntegerPart;
-		}
-		else if(x <= static_cast<genType>(0)) // Work around...
-		{
-			return IntegerPart - static_cast<genType>(1);
-		}
-		else
-		{
-			return IntegerPart + static_cast<genType>(1);
-		}
+
+		// x is exactly halfway between floor(x) and floor(x) + 1: return the even one
+		genType const IntegerPart = floor(x);
+		genType const Half = IntegerPart * static_cast<genType>(0.5);
+		return Half == floor(Half) ? IntegerPart : IntegerPart + static_cast<genType>(1);
 		//else // Bug on MinGW 4.5.2
 		//{
 		//	return mix(IntegerPart + genType(-1), IntegerPart + genType(1), x <= genType(0));
